@@ -26,6 +26,18 @@ from allmydata.monitor import Monitor
 NAMES = ["a", "b", "c", "é", "é", "Å", "Å", "x y", "日本", "z" * 40, "ẛ̣", "ẛ̣̇"]
 
 
+def split_netstrings(b):
+    out, i = [], 0
+    while i < len(b):
+        j = b.index(b":", i)
+        ln = int(b[i:j])
+        if b[j + 1 + ln:j + 2 + ln] != b",":
+            raise ValueError("bad netstring")
+        out.append(b[j + 1:j + 1 + ln])
+        i = j + 2 + ln
+    return out
+
+
 def norm(n):
     return unicodedata.normalize("NFC", n)
 
@@ -43,6 +55,11 @@ def gen_dir(seed, tier, focus):
     nops = ch.randint(W, "nops", 4, 30 if focus in ("C20", "C19") else 18)
     ops = [["mkdir", ch.pick(W, "kind0", ["sdmf", "mdmf"])]]
     OBJ = ["lit", "lit2", "chk", "ssk", "mdmf", "dir0", "dir1", "dir2", "dir0-ro", "ssk-ro", "unknown", "unknown-ro", "unknown-imm", "immdir"]
+    if focus == "C21":
+        # traversal is about the shape of the graph: more directories, linked from several places, at several depths,
+        # by write-cap and by read-cap
+        ops += [["mkdir", ch.pick(W, "kind1", ["sdmf", "mdmf"])], ["mkdir", ch.pick(W, "kind2", ["sdmf", "mdmf"])]]
+        OBJ = OBJ + ["dir0", "dir1", "dir2", "dir0-ro", "dir1-ro", "dir2-ro"] * 2
     for i in range(nops):
         kind = ch.weighted(W, ("kind", i), [("add", 8), ("delete", 3), ("move", 3), ("setmd", 2), ("mkdir", 1.2), ("advance", 1.5),
                                             ("subdir", 1.5), ("addfile", 1.5), ("immdir", 0.8 if focus in ("C19", "C20", "C18") else 0.3),
@@ -239,8 +256,12 @@ def exec_dir(case):
         def compare_listing(didx, why):
             """C20/C19: listing through a fresh node on the read-only client and on the writer equals the model."""
             d = W.dirs[didx]
-            for (client, capkey) in ((rd, "ro"), (w, "rw")):
+            # third view: the read-cap presented to the *writer's* client (one gateway serving both cap holders) while
+            # the nodes it obtained through the write-cap are still alive
+            for (client, capkey) in ((rd, "ro"), (w, "rw"), (w, "ro")):
                 st, children = drive(client.create_node_from_uri(d[capkey]).list(), "list")
+                if st == "ok" and client is w and capkey == "rw":
+                    W.keepalive = (getattr(W, "keepalive", []) + [nd_ for (nd_, md_) in children.values()])[-60:]
                 if st != "ok":
                     if st == "err":
                         bad("C20", "list-failed", "listing dir %d through the %s cap failed after %s: %s" % (didx, capkey, why, res_tb(children)),
@@ -306,6 +327,29 @@ def exec_dir(case):
             for name, e in d["children"].items():
                 if e["rw"] and e["rw"] in raw:
                     bad("C18", "plaintext-leaks-write-cap", "directory contents readable with the read-cap contain the write-cap of child %r" % (name,))
+            # a read-cap holder who knows ONE child's write-cap (say a file they contributed) must not be able to derive
+            # another child's: the encrypted write-cap fields must not share a keystream
+            fields = {}
+            try:
+                for ent in split_netstrings(raw):
+                    parts = split_netstrings(ent)
+                    if len(parts) == 4 and len(parts[2]) > 48:
+                        fields[parts[0].decode("utf-8")] = parts[2][16:-32]
+            except ValueError:
+                fields = {}
+            known = [(nm_, e_["rw"], fields[nm_]) for nm_, e_ in d["children"].items() if e_["rw"] and nm_ in fields]
+            for i_ in range(len(known)):
+                for j_ in range(len(known)):
+                    (n1, rw1, c1), (n2, rw2, c2) = known[i_], known[j_]
+                    m_ = min(len(c1), len(c2), len(rw1), len(rw2))
+                    if i_ != j_ and rw1 != rw2 and m_ >= 16:
+                        guess = bytes(a ^ b ^ c for a, b, c in zip(c2[:m_], c1[:m_], rw1[:m_]))
+                        if guess == rw2[:m_]:
+                            bad("C18", "write-cap-derivable", "knowing the write-cap of child %r, a read-cap holder recovers the first %d bytes of the write-cap "
+                                "of child %r from the directory contents (the encrypted write-cap fields share a keystream)" % (n1, m_, n2))
+                            break
+            if len(known) >= 2:
+                probe("c18-keystream-pairs-checked")
             for s in g.servers:
                 for root, _d, files in os.walk(s.ss.sharedir):
                     for fn in files:
@@ -544,8 +588,8 @@ def exec_dir(case):
             for i in range(len(W.dirs)):
                 check_c18_plaintext(i)
             # transitive: walk from the read-only root caps two levels down
-            for dd in W.dirs:
-                st, ch1 = drive(rd.create_node_from_uri(dd["ro"]).list(), "list")
+            for dd, cl_ in [(dd_, cl__) for dd_ in W.dirs for cl__ in (rd, w)]:
+                st, ch1 = drive(cl_.create_node_from_uri(dd["ro"]).list(), "list")
                 if st != "ok":
                     continue
                 for nm_, (nd, md) in ch1.items():
@@ -619,6 +663,12 @@ def reachable(W, ridx):
                 # an empty immutable directory is a literal (DIR2-LIT) cap without a verify-cap: like a literal
                 # file it is visited once per link; it is still a directory for the statistics
                 visits.append((path + (nm_,), ("litdir", cap)))
+                continue
+            if tgt is not None and tgt[0] == "imm" and verify_key(W.imm_dirs[tgt[1]]["ro"]) is None:
+                # a small immutable directory packed into a literal cap: no verify-cap to remember it by, so it is
+                # visited (and descended into) once per link; it cannot be part of a cycle
+                visits.append((path + (nm_,), ("litdir", cap)))
+                stack.append((path + (nm_,), tgt))
                 continue
             if tgt is not None:
                 if tgt in seen_dirs:
